@@ -30,6 +30,12 @@ pub fn short_file(f: &str) -> String {
   if let Some(i) = f.find("/repo/") {
     return f[i + 6..].to_string();
   }
+  // a scratch copy of the repository (self-test retargeting): keep the path from the crate directory on
+  if !f.contains("registry/src/") {
+    if let Some(i) = f.find("/identity_") {
+      return f[i + 1..].to_string();
+    }
+  }
   if let Some(i) = f.find("registry/src/") {
     let rest = &f[i + 13..];
     if let Some(j) = rest.find('/') {
